@@ -693,3 +693,13 @@ def rule_level2(ctx, R):
 
 
 RULES.append(("C10.LEVEL2", "optimize() pre-executes commands exactly for level >= 2", rule_level2))
+
+
+def _c02(name):
+    def f(ctx, R):
+        from . import p_c02
+        return getattr(p_c02, name)(ctx, R)
+    return f
+
+
+RULES.append(("C10.WINDOW", "opt_execute never reads a command past the log: the loop bound is the appended command's index (a read past it panics inside optimize(); shared with C02.WINDOW)", _c02("rule_window")))
